@@ -35,8 +35,7 @@ def to_case(rec, hints, trace):
     p = rec["prog"]
     # tier(): what a lookup site shows - the value, or 801/802 when the name resolved to the function of that name
     setup = ["global F1 = false; global F2 = false; def tier(int x) { x }; def tier(x) { x() }"]
-    for fn in sorted(p.get("funs", [])):
-        setup.append(f"def {fn}() {{ {801 if fn == 'a' else 802} }}")
+    fundefs = [f"def {fn}() {{ {801 if fn == 'a' else 802} }}" for fn in sorted(p.get("funs", []))]
     for g in sorted(p["globals"]):
         setup.append(f"global {g} = {901 if g == 'a' else 902}")
     for c in sorted(p["caps"]):
@@ -45,14 +44,20 @@ def to_case(rec, hints, trace):
     params = "p" if p["nparams"] else ""
     setup.append(f"var L = fun{caps}({params}) {{ var z = 0; {print_body(p['body'], 0)} }}")
     setup.append("var o = Dynamic_Object(); o.f = L")
-    steps = [{"op": "eval", "src": "; ".join(setup)}]
+    # the lambda under test is a local (not part of the engine state); the functions of the names come after the snapshot
+    steps = [{"op": "eval", "src": "; ".join(setup)}, {"op": "get_state", "slot": 1}]
+    if fundefs:
+        steps.append({"op": "eval", "src": "; ".join(fundefs) + "; 0"})
     arg = "555" if p["nparams"] else ""
     for c in rec["calls"]:
         fl = "; ".join(f"F{f} = {'true' if f in c['flags'] else 'false'}" for f in (1, 2))
         for gname in sorted(c.get("mk", [])):
             fl += f"; global {gname} = {901 if gname == 'a' else 902}"
         call = f"L({arg})" if c["kind"] == "free" else f"o.f({arg})"
-        steps.append({"op": "eval", "src": f"{fl}; {call}; 0"})
+        if c.get("redef"):
+            steps.append({"op": "set_state", "slot": 1})
+            steps.append({"op": "eval", "src": "def zz_filler() { 0 }; " + "; ".join(reversed(fundefs)) + "; 0"})
+        steps.append({"op": "eval", "src": f"{fl}; {call}; 0", "call": 1})
     return {"id": f"{rec['id']}.h{hints}", "to": 20, "hints": hints, "trace": 1 if trace else 0, "steps": steps}
 
 
@@ -117,11 +122,13 @@ def run(ck, tier, seed):
         keep = set(x["id"] for x in rnd.sample(small, len(small) // 3))
         recs = [r for r in recs if r["id"] >= 1000000 or r["id"] in keep]
     byid = {}
+    callidx = {}
     cases = []
     for i, r in enumerate(recs):
         for h in (1, 0):
             c = to_case(r, h, trace=(i % (40 if quick else 25) == 0))
             byid[c["id"]] = r
+            callidx[c["id"]] = [k for k, stp in enumerate(c["steps"]) if stp.get("call")]
             cases.append(c)
     obs, traces = lib.run_driver(vdrive, cases, work, tag="layout", trace=True)
     ck.exhaustive = not quick
@@ -132,9 +139,9 @@ def run(ck, tier, seed):
         exp = rec["expect"]
         if "died" in o:
             ck.violation(shape_of_failure(rec, 0, None, hints), f"process died ({o['died']}) evaluating a layout program with hints {'on' if hints else 'off'}",
-                         {"case": cid, "program": [st["src"] for st in to_case(rec, hints, False)["steps"]], "expected": exp})
+                         {"case": cid, "program": [st.get("src", st["op"]) for st in to_case(rec, hints, False)["steps"]], "expected": exp})
             continue
-        steps = o["steps"][1:]
+        steps = [o["steps"][k] for k in callidx[cid]]
         ck.nontrivial.add(tuple((e["ok"], tuple(e["out"])) for e in exp))
         if o["steps"][0]["oc"] != "val":
             raise lib.Infra(f"layout setup failed: {o['steps'][0]}")
@@ -145,7 +152,7 @@ def run(ck, tier, seed):
                 ck.violation(shape_of_failure(rec, si, s, hints),
                              f"call {si + 1} of the layout program printed {got_out} (outcome {s['oc']}) with lookup hints "
                              f"{'enabled' if hints else 'disabled'}; by-name resolution gives {e['out']} ({'ok' if e['ok'] else 'error'})",
-                             {"case": cid, "program": [st["src"] for st in to_case(rec, hints, False)["steps"]], "expected": exp,
+                             {"case": cid, "program": [st.get("src", st["op"]) for st in to_case(rec, hints, False)["steps"]], "expected": exp,
                               "observed": [{"oc": x["oc"], "out": x["out"], "why": x.get("why")} for x in steps]})
                 break
     # ---------------- V
@@ -155,15 +162,15 @@ def run(ck, tier, seed):
         ck.violation(f"trace:{ek.group(1) if ek else 'postcondition'}:{shape_of_failure(byid[cid], 0, None, int(cid.endswith('h1'))) if cid in byid else cid}",
                      f"recorded lookup is not the by-name resolution: event {evt} rejected (case {cid})",
                      {"case": cid, "rejected_event": str(evt), "preceding_events": ctx,
-                      "program": [st["src"] for st in to_case(byid[cid], 1, False)["steps"]] if cid in byid else None})
+                      "program": [st.get("src", st["op"]) for st in to_case(byid[cid], 1, False)["steps"]] if cid in byid else None})
     ck.traces += sum(1 for c in cases if c["trace"])
     ck.extra["trace_events"] = sum(sum(1 for _ in open(t)) for t in traces)
     ck.extra["layout_cases"] = len(recs)
     ck.rule = ("layout programs enumerated by TLC (Layout.tla: exhaustive family of 62,720 two-call cases" +
                (" - a seeded third in the quick tier" if quick else "") + " plus seeded random three-call cases), each replayed with hints on and off; "
                "distinct = distinct expected (status, output) vectors")
-    ck.sample({"case": cases[0]["id"], "steps": [s["src"] for s in cases[0]["steps"]], "expected": byid[cases[0]["id"]]["expect"]})
-    ck.sample({"case": cases[-1]["id"], "steps": [s["src"] for s in cases[-1]["steps"]], "expected": byid[cases[-1]["id"]]["expect"]})
+    ck.sample({"case": cases[0]["id"], "steps": [s.get("src", s["op"]) for s in cases[0]["steps"]], "expected": byid[cases[0]["id"]]["expect"]})
+    ck.sample({"case": cases[-1]["id"], "steps": [s.get("src", s["op"]) for s in cases[-1]["steps"]], "expected": byid[cases[-1]["id"]]["expect"]})
     ck.assumptions += ["the hint-ignoring switch (hook H2) makes get_object search by name; it is itself compared with the TLA+ by-name reference",
                        "layout family: names a/h, two flags, one nested block, captures, one parameter, globals, functions of the same name and globals created between calls (see spec/Layout.tla)"]
     lib.rm(work)
